@@ -36,7 +36,7 @@ REQUIRED_MONITORS = ["increasing", "inside_limits", "inside_support", "weights_f
 REQUIRED_BUCKETS = {
     "quick": ["type:gaussian", "type:lognormal", "type:schulz", "type:boltzmann", "type:uniform",
               "type:rectangle", "cut:none", "cut:lower", "cut:upper", "cut:both", "relative", "absolute",
-              "degenerate:zero_width", "degenerate:npts<2", "layer:get_mesh", "layer:sasview", "layer:shared-name-sequence", "layer:set_dispersion-shared-object", "layer:one-setting-changed-sequence", "layer:vector-element",
+              "degenerate:zero_width", "degenerate:npts<2", "layer:get_mesh", "layer:sasview", "layer:shared-name-sequence", "layer:set_dispersion-shared-object", "layer:one-setting-changed-sequence", "layer:vector-element", "layer:fewer-than-two-points-with-width",
               "partype:volume", "partype:orientation"],
 }
 REQUIRED_BUCKETS["thorough"] = REQUIRED_BUCKETS["quick"]
@@ -380,6 +380,38 @@ def run_layer(case, rec):
                 exp = value if p.relative_pd else 0.0
                 rec.check("model_layer_inactive_single", len(pts) == 1 and pts[0] == exp and wts[0] == 1.0,
                           {"model": name, "parameter": p.name, "dim": dim, "points": pts})
+        # --- fewer than two points with a non-zero width: the single central value (the value for sizes, zero
+        # jitter for angles) with weight one, through both layers
+        for npts1 in (1, 0):
+            pars1 = {p.name: value, p.name + "_pd": width, p.name + "_pd_n": npts1, p.name + "_pd_nsigma": 2.0,
+                     p.name + "_pd_type": "gaussian"}
+            dim1 = "2d" if p.type == "orientation" else "1d"
+            _state["current"] = rec
+            try:
+                mesh1 = direct_model.get_mesh(info, pars1, dim=dim1)
+            finally:
+                _state["current"] = None
+            idx1 = [q.name for q in info.parameters.call_parameters].index(p.name)
+            v1, pts1, wts1 = mesh1[idx1]
+            centre = value if p.relative_pd else 0.0
+            ok1 = (len(pts1) == 1 and float(pts1[0]) == centre and float(wts1[0]) == 1.0 and v1 == value)
+            rec.check("degenerate_single_point", ok1,
+                      {"model": name, "parameter": p.name, "type": p.type, "via": "get_mesh", "npts": npts1, "width": width,
+                       "value": value, "points": pts1, "weights": wts1, "expected_point": centre})
+            m1 = Model()
+            m1.setParam(p.name, value)
+            m1.setParam(p.name + ".width", width)
+            m1.setParam(p.name + ".npts", npts1)
+            _state["current"] = rec
+            try:
+                v2, pts2, wts2 = m1._get_weights(p)
+            finally:
+                _state["current"] = None
+            ok2 = (len(pts2) == 1 and float(pts2[0]) == centre and float(wts2[0]) == 1.0)
+            rec.check("degenerate_single_point", ok2,
+                      {"model": name, "parameter": p.name, "type": p.type, "via": "SasviewModel._get_weights", "npts": npts1,
+                       "width": width, "value": value, "points": pts2, "weights": wts2, "expected_point": centre})
+        rec.bucket("layer:fewer-than-two-points-with-width")
         # --- SasviewModel._get_weights
         m = Model()
         m.setParam(p.name, value)
